@@ -7,6 +7,9 @@ import (
 	"crypto/elliptic"
 	"crypto/rand"
 	"crypto/rsa"
+	"crypto/sha256"
+	"crypto/sha512"
+	"encoding/base64"
 	"encoding/json"
 	"errors"
 	"fmt"
@@ -227,4 +230,33 @@ func HashFamily(alg string) string {
 		return "sha512"
 	}
 	return ""
+}
+
+// RefClaimHash computes at_hash / c_hash as OIDC Core 3.1.3.6 defines it, independently of the library under
+// test (standard library only): left half of the hash that belongs to the signature algorithm, base64url.
+func RefClaimHash(value, alg string) string {
+	var sum []byte
+	switch HashFamily(alg) {
+	case "sha256":
+		s := sha256.Sum256([]byte(value))
+		sum = s[:]
+	case "sha384":
+		s := sha512.Sum384([]byte(value))
+		sum = s[:]
+	case "sha512":
+		s := sha512.Sum512([]byte(value))
+		sum = s[:]
+	default:
+		return ""
+	}
+	return base64.RawURLEncoding.EncodeToString(sum[:len(sum)/2])
+}
+
+// RefClaimHashShort is a WRONG at_hash: only the first 128 bits of the digest (equal to the right one for SHA-256).
+func RefClaimHashShort(value, alg string) string {
+	full, _ := base64.RawURLEncoding.DecodeString(RefClaimHash(value, alg))
+	if len(full) > 16 {
+		full = full[:16]
+	}
+	return base64.RawURLEncoding.EncodeToString(full)
 }
